@@ -490,7 +490,8 @@ func (c *FnCtx) inlineCall(st *State, fi *FuncInfo, recv Term, args []Term, pos 
 	}
 	sub := &FnCtx{e: c.e, fi: fi, fc: c.e.contracts[fi.Key], info: fi.Pkg.TypesInfo, entry: c.entry, env: c.env, obls: c.obls,
 		loopOrd: map[ast.Node]int{}, overflow: c.overflow, safety: c.safety, names: c.names, posName: c.posName, watch: c.watch,
-		prefix: c.prefix + "inl(" + shortKey(fi.Key) + ")/", inlineDepth: c.inlineDepth + 1, labels: map[ast.Stmt]string{}}
+		prefix: c.prefix + "inl(" + shortKey(fi.Key) + ")/", inlineDepth: c.inlineDepth + 1, labels: map[ast.Stmt]string{},
+		lenientOuter: c.lenient(), escaping: map[types.Object]bool{}}
 	if fi.Recv != nil {
 		st.vars[fi.Recv] = recv
 	}
